@@ -52,6 +52,9 @@ def gen_spec(seed: int, idx: int, tier: str):
     spec["collide"] = rng.random() < 0.2
     spec["name_salt"] = rng.randrange(4)
     spec["clock_jumps"] = rng.random() < 0.15
+    spec["missing_tmp"] = rng.random() < 0.03
+    if spec["missing_tmp"]:
+        spec["decoys"] = {k: v for k, v in spec["decoys"].items() if not k.startswith(("tmp/", "alt-tmp/"))}
     spec["t0"] = procworld.T0 + rng.choice([0, 0, 86400 * 200, -86400 * 3000, 86400 * 9000, 86400 * 0.9])
     spec["tz"] = rng.choice(TZ_KNOB)
     if mode == "channels" or rng.random() < 0.3:
@@ -324,6 +327,7 @@ def shrink_candidates(spec: dict, inputs: list[dict]):
         yield s2, inputs
 
 
+EXPECTED_PROBES = ["success", "except-FileNotFoundError", "except-ReportGenerationError", "except-Exception", "click-abort", "main-fatal", "injected-EEXIST", "tmp-fallback-to-alt", "tmp-fallback-to-cwd"]
 CONFIGS = [
     {"hashseed": 0, "block": []},
     {"hashseed": 1, "block": []},
